@@ -147,10 +147,10 @@ package phase5
 // ---------------------------------------------------------------------------
 // preconditions of the routing helpers (C01): what their index expressions and sanity panics rely on
 //@ func nonTerminalPoint
-//@   requires n != nil && n.IsVirtual
+//@   requires[|C01] n != nil && n.IsVirtual
 //@ func rectBetweenLayers
-//@   requires l1 != nil && l2 != nil && len(l1.Nodes) > 0 && len(l2.Nodes) > 0
+//@   requires[|C01] l1 != nil && l2 != nil && len(l1.Nodes) > 0 && len(l2.Nodes) > 0
 //@ func rectVirtualNode
-//@   requires vn != nil && vl != nil && len(vl.Nodes) >= 2 && 0 <= vn.LayerPos && vn.LayerPos < len(vl.Nodes)
+//@   requires[|C01] vn != nil && vl != nil && len(vl.Nodes) >= 2 && 0 <= vn.LayerPos && vn.LayerPos < len(vl.Nodes)
 //@ func flatPolyline
-//@   requires r.Edge != nil && r.From != nil && r.To != nil && len(r.ns) >= 1 && r.ns[0] != nil && r.ns[len(r.ns)-1] != nil
+//@   requires[|C01] r.Edge != nil && r.From != nil && r.To != nil && len(r.ns) >= 1 && r.ns[0] != nil && r.ns[len(r.ns)-1] != nil
